@@ -470,7 +470,10 @@ def explore(job):
         subsets = []
         for r in range(len(names) + 1):
             subsets += [list(c) for c in itertools.combinations(names, r)]
-        nvar = NVARIANTS if tier != "quick" else (2 if len(names) <= 5 else 1)
+        if tier == "quick":
+            nvar = 2 if len(names) <= 5 else 1
+        else:
+            nvar = NVARIANTS if len(names) <= 6 else 2
         cases = [(None, False, "factory", -1), (None, False, "dir", -1)]
         for si, sub in enumerate(subsets):
             vs = [(si + j * 5) % NVARIANTS for j in range(nvar)] if nvar < NVARIANTS else range(NVARIANTS)
@@ -645,6 +648,30 @@ def families(rng, tier):
     ]
     for lay in gaps:
         specs.append(crafted(lay, rng, "multi-gap"))
+    if not quick:
+        # larger archives: 7 and 8 members (128 / 256 subsets)
+        for n in (7, 8):
+            for _ in range(3):
+                specs.append(crafted([(rng.choice(K), 0) for _ in range(n)], rng, "single%d-random" % n))
+            for gap in (False, False, True):
+                nf = rng.choice([2, 3])
+                lay = []
+                ndata = n - 2
+                cuts = sorted(rng.sample(range(1, ndata), nf - 1))
+                sizes = [b - a for a, b in zip([0] + cuts, cuts + [ndata])]
+                for k, sz in enumerate(sizes):
+                    if rng.random() < 0.6:
+                        lay.append((rng.choice(("empty", "dir")), 0))
+                    lay += [("data", k)] * sz
+                while len(lay) < n:
+                    lay.append((rng.choice(("empty", "dir")), 0))
+                lay = lay[:n] if all(any(x == ("data", k) for x in lay[:n]) for k in range(nf)) else lay
+                if gap:
+                    big = max(range(nf), key=lambda k: sizes[k])
+                    idx = [i for i, x in enumerate(lay) if x == ("data", big)]
+                    if len(idx) >= 2:
+                        lay.insert(idx[1], (rng.choice(("empty", "dir")), 0))
+                specs.append(crafted(lay, rng, "multi-gap" if gap else "multi-healthy"))
     # D. written by py7zr
     def sess(ms):
         return [[n, k, (content(rng, i).hex() if k == "data" else "")] for i, (n, k) in enumerate(ms)]
@@ -713,7 +740,9 @@ def check_absent_prefix(ctx, rep):
         want, _ = expected(contents, T, rec, False)
         rep.count(("prefix", repr(T), rec), nontrivial=True)
         layout = [(e[0], ("data", 0) if e[1] == "data" else (e[1],)) for e in PREFIX_PROBE["entries"]]
-        if model is not None:
+        if model is not None and (files != want or exc is not None):
+            # the deviation has to be the modelled one (str.startswith); when the implementation follows the
+            # specification here (prefix test repaired) model and code agree wherever targets_prefix_ok holds
             mo, mf, md = model_run(model, "sel_impl_extract", model_archive(layout, contents), T, rec, "factory", False)
             if mf != files:
                 rep.violation("model of the code and implementation disagree on absent prefix targets %r: %r vs %r" % (
